@@ -154,7 +154,7 @@ def run_case(case, errs):
     def body():
         yield t0
         try:
-            if prog[0] in ('event', 'replay'):
+            if prog[0] in ('event', 'replay', 'redef'):
                 obj = event({k: val(v) for k, v in prog[2]})
             else:
                 obj = epat(prog[2])
@@ -170,6 +170,14 @@ def run_case(case, errs):
             player.play(reset=True)
             return
         obj.play()
+        if prog[0] == 'redef':
+            # the SynthDef is added again under the same name with other controls, then an equal event plays
+            yield num(prog[3])
+            d = prog[4]
+            make_def(d['name'], d['controls'])
+            if d.get('keep_gate'):
+                SynthDescLib.default.at(d['name']).keep_gate = True
+            event({k: val(v) for k, v in prog[2]}).play()
         if prog[0] == 'replay':
             # the same event OBJECT (or a copy of the already played object) played again later
             for dt, mode in prog[3]:
